@@ -27,6 +27,7 @@ def run(repo, run, tier):
     provenance(repo, run)
     dtime(repo, run)
     proposal_store(repo, run)
+    final_step(repo, run)
 
 
 def kind_rules(repo, run, rid="C04.1"):
@@ -143,3 +144,24 @@ def proposal_store(repo, run):
     run.judged(rid, "other stores to dt in the step loop: %d" % len(others), ok=not others)
     for st in others:
         run.report("C04.4", DS, st, "self.dt is overwritten inside the step loop by something other than the integrator's proposal")
+
+
+def final_step(repo, run):
+    """a step other than the last is the requested dt: the clamp `dt = tf - t` may only be taken when |dt| > |tf - t| (shared with C03.2)"""
+    from .c03 import _final_predicate, _is_remaining
+    rid = run.rule("C04.5", "the clamped step `tf - t[counter]` replaces the requested step exactly when |self.dt| > |tf - t[counter]|: otherwise a recorded step other "
+                            "than the last is longer (or shorter) than the requested one", floor=1)
+    m = IntegrateModel(repo)
+    c = m.canon
+    call = m.step_assign.value
+    kw = {k.arg: k.value for k in call.keywords}
+    step_arg = kw.get("timestep", call.args[4] if len(call.args) > 4 else None)
+    if not isinstance(step_arg, ast.Name):
+        raise AnalysisError("integrator call has no named local step")
+    defs = [st for st in walk_no_nested(m.loop) if isinstance(st, ast.Assign) and any(isinstance(t, ast.Name) and t.id == step_arg.id for t in st.targets)]
+    clamp = next((st for st in defs if _is_remaining(m, c, st.value, sign_free=False)), None)
+    if clamp is None or not isinstance(clamp._parent, ast.If):
+        run.judged(rid, "clamp statement", ok=False)
+        run.report("C04.5", DS, m.loop, "the clamp of the last step to `tf - t[counter]` was not found under a test", text="missing clamp")
+        return
+    _final_predicate(run, rid, m, c, clamp._parent, rule_id="C04.5")
